@@ -422,6 +422,20 @@ def _corpus_families(big):
     for extra in ([], [{"k": "MinimumTrials", "n": 6}]):
         out.append({"factors": [wc2, sz2, loud], "block": {"k": "cross", "design": [0, 1, 2], "crossing": [0, 1], "rcc": False,
                     "cs": [{"k": "Exclude", "f": 2, "l": 0}] + extra}})
+    # a within-trial derived factor over another derived factor, both uncrossed but kept in the problem by a
+    # constraint, listed in the design *before* the factor it depends on (fill-in order must follow dependencies)
+    dc, dw, dz = _sf(0, ["r", "g"]), _sf(1, ["r", "g"]), _sf(2, ["big", "small"])
+    eqt = [0] * 9
+    eqt[4] = eqt[8] = 1
+    cong = {"id": 3, "name": "f3", "window": {"deps": [0, 1], "width": 1, "stride": 1, "start": None, "kind": "within"},
+            "levels": [{"name": "con", "w": 1, "table": eqt}, {"name": "inc", "w": 1, "table": [1 - x for x in eqt]}]}
+    hard_t = [0] * 9
+    hard_t[1 * 3 + 2] = 1          # (big, inc)
+    diff = {"id": 4, "name": "f4", "window": {"deps": [2, 3], "width": 1, "stride": 1, "start": None, "kind": "within"},
+            "levels": [{"name": "hard", "w": 1, "table": hard_t}, {"name": "easy", "w": 1, "table": [1 - x for x in hard_t]}]}
+    for order in ([0, 1, 2, 4, 3], [4, 3, 0, 1, 2], [0, 1, 2, 3, 4]):
+        out.append({"factors": [dc, dw, dz, cong, diff], "block": {"k": "cross", "design": order, "crossing": [0, 2], "rcc": True,
+                    "cs": [{"k": "AtMostKInARow", "n": 3, "f": 4, "l": 0}]}})
     # an implied (uncrossed, unconstrained) derived factor whose window covers two factors and two trials, with a
     # table that tells the positions apart (is a[0], the current level of the first factor, its first level?)
     ca, cb = _sf(0, ["r", "g"]), _sf(1, ["r", "g"])
@@ -459,6 +473,12 @@ def _corpus_families(big):
     out.append({"factors": [oa2, ob, bad, ins], "block": {"k": "nest", "cs": [], "align": None,
                 "outer": {"k": "cross", "design": [0, 1, 2], "crossing": [0, 1], "rcc": False, "cs": [{"k": "Exclude", "f": 2, "l": 0}]},
                 "inner": {"k": "cross", "design": [10], "crossing": [10], "rcc": True, "cs": []}}})
+    # MinimumTrials on both blocks of a Nest (each counts in its own block's trials), also together with one on the Nest
+    na, nb = _sf(0, ["A1", "A2"]), _sf(10, ["B1", "B2"])
+    for mo, mi, mn in ((4, 4, None), (4, 2, None), (2, 4, None), (4, 3, 20)):
+        out.append({"factors": [na, nb], "block": {"k": "nest", "cs": ([{"k": "MinimumTrials", "n": mn}] if mn else []), "align": None,
+                    "outer": {"k": "cross", "design": [0], "crossing": [0], "rcc": True, "cs": [{"k": "MinimumTrials", "n": mo}]},
+                    "inner": {"k": "cross", "design": [10], "crossing": [10], "rcc": True, "cs": [{"k": "MinimumTrials", "n": mi}]}}})
     # MinimumTrials given to the Nest itself, not a multiple of the inner length (rounded up to whole inner runs)
     oa, isx = _sf(0, ["A1", "A2"]), _sf(10, ["s1", "s2", "s3"])
     for mt in (7, 10, 6, 5):
